@@ -69,6 +69,8 @@ inductive Stmt where
   | doWhile (body : Stmt) (c : Expr)
   | block (ss : List Stmt)      -- `{ … }` without lexical declarations
   | empty
+  | throw_ (e : Expr)
+  | tryCatch (body handler : List Stmt)     -- `try { … } catch { … }` (no binding, no finally)
   deriving Repr, Inhabited
 
 /-- the instructions the modelled constructs compile to (`Op` of `bytecode.rs`, constants resolved) -/
@@ -91,6 +93,9 @@ inductive Op where
   | jumpIfNotNullish (c : Reg) (t : Nat)
   | pushScope
   | popScope
+  | pushTry (catchTarget : Nat)
+  | popTry
+  | throw_ (src : Reg)
   | halt
   deriving Repr, DecidableEq, Inhabited
 
@@ -122,6 +127,14 @@ def retarget (op : Op) (t : Nat) : Op :=
 /-- `patch_jump`: the placeholder at `idx` now jumps to the current end of the code -/
 def B.patch (b : B) (idx : Nat) : B :=
   { b with code := b.code.modify idx (fun op => retarget op b.code.length) }
+
+/-- `patch_jump_to` -/
+def B.patchTo (b : B) (idx target : Nat) : B :=
+  { b with code := b.code.modify idx (fun op => retarget op target) }
+
+/-- `patch_try_targets` (no finally block: `finally_target` stays 0) -/
+def B.patchTry (b : B) (idx catchTarget : Nat) : B :=
+  { b with code := b.code.modify idx (fun op => match op with | .pushTry _ => .pushTry catchTarget | op => op) }
 
 /-- `compile_literal` with `emit_load_number` -/
 def litOp (dst : Reg) : Lit → Op
@@ -290,6 +303,30 @@ def compileInner : Stmt → B → Option B
       let b ← compileL ss b
       some (b.emit .popScope)
   | .empty, b => some b
+  | .throw_ e, b => do
+      let (r, b) ← b.alloc
+      let b ← compileE e r b
+      let b := b.emit (.throw_ r)
+      some (b.free r)
+  | .tryCatch body handler, b => do
+      let pushIdx := b.code.length
+      let b := b.emit (.pushTry 0)
+      let b := b.emit .pushScope                 -- compile_block
+      let b ← compileL body b
+      let b := b.emit .popScope
+      let b := b.emit .popTry
+      let afterTry := b.code.length
+      let b := b.emit (.jump 0)
+      let catchStart := b.code.length
+      let b := b.emit .pushScope
+      let b ← compileL handler b
+      let b := b.emit .popScope
+      let afterCatch := b.code.length
+      let b := b.emit (.jump 0)
+      let endOff := b.code.length
+      let b := b.patchTo afterTry endOff
+      let b := b.patchTo afterCatch endOff
+      some (b.patchTry pushIdx catchStart)
 termination_by s => (sizeOf s, 0)
 
 def compileL : List Stmt → B → Option B
@@ -314,6 +351,7 @@ structure Sem (V Err : Type) where
   un : UnOp → V → Except Err V
   bin : BinOp → V → V → Except Err V
   refErr : String → Err
+  ofVal : V → Err          -- `throw v`
 
 abbrev Env (V : Type) := List (String × V)
 
@@ -479,6 +517,14 @@ def evalS (fuel : Nat) : Stmt → Env V → Option (Res V Err Unit)
         | r => r
   | .block ss, env => evalL fuel ss env
   | .empty, env => some (.ok () env)
+  | .throw_ e, env =>
+      match evalE sem e env with
+      | .ok v env => some (.thrown (sem.ofVal v) env)
+      | .thrown er env => some (.thrown er env)
+  | .tryCatch body handler, env =>
+      match evalL fuel body env with
+      | some (.thrown _ env) => evalL fuel handler env      -- the handler sees the side effects made before the throw
+      | r => r
 termination_by s => (fuel, sizeOf s)
 
 def evalL (fuel : Nat) : List Stmt → Env V → Option (Res V Err Unit)
@@ -496,6 +542,7 @@ structure St (V : Type) where
   pc : Nat
   regs : Reg → V
   env : Env V
+  hs : List Nat          -- the try stack: catch targets of the enclosing `try` statements, innermost first
 
 def setReg (regs : Reg → V) (r : Reg) (v : V) : Reg → V := fun r' => if r' = r then v else regs r'
 
@@ -539,6 +586,9 @@ def exec1 (op : Op) (s : St V) : Out V Err :=
   | .jumpIfNotNullish c t => .next { s with pc := if sem.nullish (s.regs c) then s.pc + 1 else t }
   | .pushScope => adv s.regs        -- a block without declarations: the new scope holds no binding
   | .popScope => adv s.regs
+  | .pushTry t => .next { s with pc := s.pc + 1, hs := t :: s.hs }
+  | .popTry => .next { s with pc := s.pc + 1, hs := s.hs.tail }
+  | .throw_ r => .throw (sem.ofVal (s.regs r)) s
   | .halt => .halt s
 
 /-- fetch and execute -/
@@ -547,12 +597,21 @@ def step (code : List Op) (s : St V) : Out V Err :=
   | none => .fault
   | some op => exec1 sem op s
 
+/-- an instruction that throws transfers control to the innermost handler, if there is one -/
+def stepH (code : List Op) (s : St V) : Out V Err :=
+  match step sem code s with
+  | .throw er s' =>
+    match s'.hs with
+    | t :: rest => .next { s' with pc := t, hs := rest }
+    | [] => .throw er s'
+  | o => o
+
 /-- run at most `fuel` instructions -/
 def run (code : List Op) (fuel : Nat) (s : St V) : Option (Out V Err) :=
   match fuel with
   | 0 => none
   | fuel + 1 =>
-    match step sem code s with
+    match stepH sem code s with
     | .next s' => run code fuel s'
     | o => some o
 
@@ -688,6 +747,21 @@ def codeS : Stmt → Nat → Nat → Option (List Op)
       | none => none
       | some bs => some (.pushScope :: (bs ++ [.popScope]))
   | .empty, _, _ => some []
+  | .throw_ e, n, base =>
+      if n = 255 then none else
+      match codeE e n (n + 1) base with
+      | none => none
+      | some be => some (be ++ [.throw_ n])
+  | .tryCatch body handler, n, base =>
+      match codeL body n (base + 2) with
+      | none => none
+      | some bb =>
+        match codeL handler n (base + 2 + bb.length + 3 + 1) with
+        | none => none
+        | some bh =>
+          some (.pushTry (base + 2 + bb.length + 3) :: .pushScope ::
+            (bb ++ .popScope :: .popTry :: .jump (base + 2 + bb.length + 3 + 1 + bh.length + 2) :: .pushScope ::
+              (bh ++ [.popScope, .jump (base + 2 + bb.length + 3 + 1 + bh.length + 2)])))
 
 def codeL : List Stmt → Nat → Nat → Option (List Op)
   | [], _, _ => some []
